@@ -611,7 +611,9 @@ class TrajectoryStore:
                     fs = FieldSet.from_registry(fs_name)
                     for f, metadata in fs.fields.items():
                         if Dimension.SPECIES in metadata.dimensions:
-                            species.update(getattr(associated_data, f).keys())
+                            val = getattr(associated_data, f)
+                            if val is not None:
+                                species.update(val.keys())
 
                 nc_info = self._create_nc_file(
                     associated_file,
